@@ -19,7 +19,7 @@ PROFILES = {
                 nactions=[1, 1, 2], action_p=0.5, max_keys=3, unaccepted_p=0.0, disconnect_p=0.1, no_pairs=True),
     "C08": dict(axes=True, akinds=["key"], naxes=[1, 2, 3], abs_p=0.6, max_events=60, nactions=[0, 2, 4], action_p=0.4,
                 max_keys=3, unaccepted_p=0.0, no_learning=True, axis_unmapped_p=0.1),
-    "C13": dict(axes=False, max_events=50, want_actions=["panic"], nactions=[1, 2, 3, 5], action_p=0.4),
+    "C13": dict(axes=False, max_events=50, want_actions=["panic"], nactions=[1, 2, 3, 5, 6], action_p=0.4, panic_across_held_p=0.35),
     "C14": dict(axes=False, max_events=50, nexit=[0, 1, 2, 2, 3, 3], action_p=0.3),
 }
 SIZES = {"quick": 8000, "thorough": 400000}
